@@ -7,8 +7,8 @@ Traces == JsonDeserialize(IOEnv.TRACE_FILE)
 VARIABLE tid
 Tr == Traces[tid]
 RECURSIVE StripSP(_)
-StripSP(l) == IF l # <<>> /\ l[Len(l)] = SP THEN StripSP(SubSeq(l, 1, Len(l) - 1))
-              ELSE IF l # <<>> /\ l[1] = SP THEN StripSP(SubSeq(l, 2, Len(l))) ELSE l
+StripSP(l) == IF l # <<>> /\ l[Len(l)] \in {SP, LS} THEN StripSP(SubSeq(l, 1, Len(l) - 1))       \* str.strip(): white space at both ends
+              ELSE IF l # <<>> /\ l[1] \in {SP, LS} THEN StripSP(SubSeq(l, 2, Len(l))) ELSE l
 Norm(ls) == [i \in 1..Len(ls) |-> StripSP(ls[i])]
 Clauses == IF Tr.status # "ok" THEN {"C06.lines." \o Tr.status}
            ELSE IF Norm(Tr.lines) # Norm(SpecLines(Tr.text)) THEN {"C06.lines"} ELSE {}
